@@ -54,6 +54,14 @@ def vctr_parts(quick):
         else: cfgs = [(0, BSZ), (1, BSZ), (1, 0), (BSZ - 1, 1), (BSZ, BSZ), (BSZ + 1, BSZ), (BSZ + 6, 5), (2 * BSZ, BSZ), (2 * BSZ + 3, BSZ - 1), (5, BSZ - 5), (7, 9)]
         out += ["vctr_%s_%s_%d_%d" % (c, be, sz, off) for sz, off in cfgs]
     return out
+# *_ctr_*_set_counter of every back end functionally (WholeCtrSet.v): counter lengths 0..bs, NULL, rejected lengths
+def sctr_parts(quick):
+    out = []
+    for c, be, bs in (("c128", "def", 16), ("c128", "v128", 16), ("c128", "v256", 16), ("c64", "def", 8), ("c64", "v128", 8), ("mc", "def", 8), ("mc", "v128", 8)):
+        if quick: szs = [3, "null"] if be != "v256" else [bs - 1]
+        else: szs = [0, 1, 3, bs - 1, bs, "null", bs + 1, 4294967295]
+        out += ["sctr_%s_%s_%s" % (c, be, sz) for sz in szs]
+    return out
 def key_parts(w, quick):
     bs = 16 if w == "128" else 8
     fam = "key" + w
@@ -92,7 +100,13 @@ def one(repo_copy, gen, cfg, part):
                  secret_dependent=("secret-dependent" in err))
         return r
     m = re.search(r"(\d+) whole-function", out); r["obligations"] = int(m.group(1)) if m else 1
-    rc, out, err = C.sh(["coqc", "-Q", C.COQ, "Skinny", gv], cwd=gen, timeout=1800)
+    import subprocess
+    try:
+        rc, out, err = C.sh(["coqc", "-Q", C.COQ, "Skinny", gv], cwd=gen, timeout=900)
+    except subprocess.TimeoutExpired:
+        # e.g. a length that wraps around makes the partial evaluator unroll billions of byte stores: the obligation is not shown
+        r.update(stage="obligation", failed="%s (coqc did not finish in 900 s)" % part, log="timeout")
+        return r
     if rc == 0 and "Axioms:" not in out:
         r.update(ok=True, discharged=r["obligations"]); return r
     # which obligation fails
